@@ -39,9 +39,27 @@ pub fn gen_ticker(r: &mut Rng) -> String {
     }
 }
 
+/// every code the tool's currency type accepts (all three-letter words tried once): withdrawn and
+/// superseded codes, funds, metals and test codes included
+pub fn all_codes() -> &'static [Currency] {
+    static ALL: std::sync::OnceLock<Vec<Currency>> = std::sync::OnceLock::new();
+    ALL.get_or_init(|| {
+        let mut v = Vec::new();
+        for a in b'A'..=b'Z' { for b in b'A'..=b'Z' { for c in b'A'..=b'Z' {
+            let w = [a, b, c];
+            if let Some(cur) = std::str::from_utf8(&w).ok().and_then(Currency::from_code) { v.push(cur); }
+        } } }
+        v
+    })
+}
+
 pub fn gen_amount(r: &mut Rng, allow_zero: bool) -> CurrencyAmount {
-    let code = if r.chance(1, 2) { "GBP" } else { *r.pick(CODES) };
-    CurrencyAmount::new(gen_decimal(r, allow_zero), Currency::from_code(code).expect("iso"))
+    let cur = match r.below(6) {
+        0..=2 => Currency::GBP,
+        3 => *r.pick(all_codes()),
+        _ => Currency::from_code(*r.pick(CODES)).expect("iso"),
+    };
+    CurrencyAmount::new(gen_decimal(r, allow_zero), cur)
 }
 
 pub fn gen_date(r: &mut Rng) -> NaiveDate {
